@@ -44,6 +44,9 @@ RULE = (
     "script, statistics, strategy/draw/example, repr/str/eq/copy/deepcopy/pickle, dtypes/get_dtypes/get_metadata, all "
     "transforming methods, model to_schema/subclass/to_yaml). Non-trivial: the history contains a rejected validation "
     "followed by >=1 other operation, or a serialisation/statistics call followed by a validation/strategy call. "
+    "Family fresh_process: enumerated matrix (check list x snapshot kind x first operation x passing/failing frame), "
+    "each case in its own interpreter that has not validated anything yet (quick: the validate column + a seed-rotated "
+    "sample, thorough: all 120); non-trivial = schema has checks and the first operation is not repr. "
     "Distinct = hash of the canonical JSON case."
 )
 ASSUMPTIONS = [
@@ -744,8 +747,7 @@ def enum_fresh(tier):
         yield from cases
         return
     # quick: the validate column of the matrix for every check list / snapshot kind + a rotating rest
-    must = [c for c in cases if c["first_op"] == "validate" and c["probe"]["columns"][0]["cells"][0] == 1
-            and c["snapshot_via"] != "rebuild"]
+    must = [c for c in cases if c["first_op"] == "validate" and c["probe"]["columns"][0]["cells"][0] == 1]
     rest = [c for c in cases if c not in must]
     yield from must
     yield from rest[seed % 13::13]
@@ -781,7 +783,7 @@ def eval_fresh(case):
 @known.finding("C05/deepcopy-owns-stale-check-dispatcher")
 def _k_dispatcher(family, case, disc):
     return (family == "fresh_process" and disc.kind == "eq-snapshot-false:fresh-process:validate"
-            and case["snapshot_via"] in ("deepcopy", "add_remove_columns")
+            and case["snapshot_via"] in ("deepcopy", "add_remove_columns", "rebuild")  # the constructor deep-copies too
             and any(c["kind"] in BUILTIN_KINDS for c in case["schema"]["columns"][0]["checks"]))
 
 
@@ -796,7 +798,7 @@ def strat_history():
 
 
 FAMILIES = [
-    Family("history", evaluate, strategy=strat_history, n_quick=100, n_thorough=1500, shards_quick=8, shards_thorough=16,
+    Family("history", evaluate, strategy=strat_history, n_quick=100, n_thorough=2000, shards_quick=8, shards_thorough=16,
            required_labels=["kind=frame", "kind=model", "kind=series", "validate=accept", "validate=reject",
                             "fail-then-op", "serialise-then-use", "op=statistics", "op=to_yaml", "op=to_script",
                             "op=rename_columns", "op=component_validate", "has_regex", "has_tz_agnostic",
